@@ -167,7 +167,7 @@ Proof.
 Qed.
 Print Assumptions request_full_preserves_inv.
 
-(* "if a version was named explicitly, that is the version set up": a top-level request that names the
+(* If a version was named explicitly, that is the version set up: a top-level request that names the
    version v (not a relational expression) and succeeds ends with v recorded for the product - whatever the VRO,
    the tags and the dictionary.  C03's explicit_toplevel_version_honoured composed with decided_version_is_set_up. *)
 Theorem explicit_version_is_set_up vcmp vmatch fw cfg rc flavors dl rank fuel st al vro name v x just st' al' tr :
@@ -217,9 +217,9 @@ Qed.
 Print Assumptions c01_composed_inhabited.
 
 (* ---- the closure clause, in full ----
-   "When no product is requested in two different versions along the traversal, nothing of the closure is set
+   When no product is requested in two different versions along the traversal, nothing of the closure is set
    up beforehand, and the request succeeds, the set of products set up is exactly the dependency closure
-   (required dependencies, plus optional ones that resolve), each at the version the VRO designates."
+   (required dependencies, plus optional ones that resolve), each at the version the VRO designates.
 
    [conflict_free ... top li D] (Proofs/SetupFullClosure.v): ONE assignment D of a version (or of nothing) to
    every product name explains every request of the traversal - the top-level request designates D top, and in
@@ -236,7 +236,9 @@ Print Assumptions c01_composed_inhabited.
      (3) the record of every other product the world knows is what it was.
    Hypotheses besides WF2 and conflict-freedom: nothing reachable is recorded beforehand; no --max-depth, no
    --just, no keep in the VRO; the database view is well formed and the comparator is a total order on the
-   declared version names (both as in C03's walk_is_designation). *)
+   declared version names (both as in C03's walk_is_designation).
+   (closure_exact_partial above is conjunct (3) for an arbitrary resolver; what it lacked - every member of the
+   closure IS set up at the designated version, and nothing else among the reachable names is - are (1) and (2).) *)
 From Eupsv Require Import Proofs.SetupFullClosure.
 From Eupsv Require Proofs.Resolve.
 
